@@ -65,7 +65,9 @@ def oracle_stack(args):
     weights = products of the per-level weights, total weight 1"""
     from mudslide.even_sampling import SpawnStack
     ns, method = [int(v) for v in args["nsamples"]], args["method"]
-    ss = SpawnStack.from_quadrature(list(ns), method=method)
+    sizes = list(ns)                       # ONE list object handed to the builder twice, as BatchedTraj does with its option
+    ss = SpawnStack.from_quadrature(sizes, method=method)
+    ss_again = SpawnStack.from_quadrature(sizes, method=method)
     pw = ss.unravel()
     rules = [_quad(k, 0.0, 1.0, method) for k in ns]
     want = []
@@ -84,6 +86,15 @@ def oracle_stack(args):
     tot = float(sum(wgt for _p, wgt in pw))
     if not close(tot, 1.0, 1.0, rtol=1e-11):
         problems.append("flattened weights sum to %r" % tot)
+    if sizes != ns:
+        problems.append("the caller's size list was changed by the builder: %r -> %r" % (ns, sizes))
+    try:
+        pw2 = ss_again.unravel()
+    except Exception as e:  # noqa
+        pw2 = None
+        problems.append("a second stack built from the same size list cannot be flattened (%s)" % type(e).__name__)
+    if pw2 is not None and [(tuple(float(t) for t in p), float(w_)) for p, w_ in pw2] != [(tuple(float(t) for t in p), float(w_)) for p, w_ in pw]:
+        problems.append("a second stack built from the same size list differs from the first (%d vs %d points)" % (len(pw2), len(pw)))
     return not problems, {"npoints": len(pw), "total": tot, "problems": problems[:2]}, {"total": 1.0}, \
         "from_quadrature(%r,%s): %s" % (ns, method, "; ".join(problems[:2]) or "ok")
 
@@ -137,6 +148,17 @@ def run(ctx):
             for (a, b) in intervals:
                 jobs.append((method, n, a, b))
     lines, extra = [], []
+    good = []
+    for method, n, a, b in jobs:
+        try:
+            _quad(n, a, b, method)
+            good.append((method, n, a, b))
+        except Exception:
+            args_ = {"n": n, "a": a, "b": b, "method": method}
+            ok_, obs_, req_, text_ = oracle_rule(args_)       # re-raises unless the implementation itself raised
+            ctx.case(None)
+            ctx.oracle_fail("rule-raised:" + method, "rule", args_, obs_, req_, text_)
+    jobs = good
     for method, n, a, b in jobs:
         mi = METHODS.index(method)
         if method == "gl":
